@@ -453,9 +453,9 @@ def c14_jobs(tier):
         jobs.append(job(EAP, "HEapRoundTrip", [m, 0, t]))
     masks = [m for m in range(128) if bin(m).count("1") <= (2 if q else 7)]
     for m in masks:
-        jobs.append(job(EAP, "HEapRoundTrip", [50, m, t], wall_ms=120000))
+        jobs.append(job(EAP, "HEapRoundTrip", [50, m, t], wall_ms=600000))
         if bin(m).count("1") <= 3:
-            jobs.append(job(EAP, "HEapWellFormed", [50, m, t], map_orders=True, wall_ms=120000))
+            jobs.append(job(EAP, "HEapWellFormed", [50, m, t], map_orders=True, wall_ms=600000))
         else:
             jobs.append(job(EAP, "HEapWellFormed", [50, m, 0], wall_ms=120000))
     sizes = list(range(0, 41)) + [63, 64, 65, 127, 128, 129, 251, 252, 253, 255, 256, 257, 300] if q else range(0, 301)
